@@ -32,12 +32,12 @@ theorem view_isSome : (gv : GoVal) → (g : GoTy) → (t : Ty) → (nul : Bool) 
     cases g <;> simp at hwt
     simp [view]
   | .ptr x, g, t, nul, hc, hwt => by
-    cases nul <;> simp [wt] at hwt
-    cases g <;> simp at hwt
+    cases g <;> simp [wt] at hwt
     rename_i g1
-    have hc1 : compatible g1 t false = true := by simpa [compatible] using hc
+    obtain ⟨_, hc1⟩ := compatible_ptr hc
     obtain ⟨v, hv⟩ := view_isSome x g1 t false hc1 hwt
     simp [view, hv]
+  | .nilIface, g, t, nul, _, hwt => by simp [wt] at hwt
   | .bool b, g, t, nul, _, hwt => by
     cases nul <;> simp [wt] at hwt
     cases g <;> cases t <;> simp at hwt
@@ -139,33 +139,42 @@ theorem viewFields_isSome : (vs : GoVals) → (gfs : GoFields) → (fs : List Fi
       cases fs with
       | nil => simp [wtFields] at hwt
       | cons f fs =>
-        unfold compatFields at hc
-        simp only [Bool.and_eq_true] at hc
-        cases ho : f.opt with
-        | false =>
-          rw [wtFields_nonopt _ _ _ _ _ _ _ ho] at hwt
-          simp only [Bool.and_eq_true] at hwt
-          simp only [ho, Bool.false_eq_true, if_false] at hc
-          obtain ⟨a, ha⟩ := view_isSome x g f.ty f.nullable hc.1.2 hwt.1
-          obtain ⟨r, hr⟩ := viewFields_isSome xs gfs fs hc.2 hwt.2
-          rw [viewFields_nonopt _ _ _ _ _ _ _ ho]; simp [ha, hr]
-        | true =>
-          simp only [ho, if_true] at hc
+        rw [compatFields_cons] at hc
+        rw [wtFields_cons] at hwt
+        rw [viewFields_cons]
+        simp only [Bool.and_eq_true] at hc hwt
+        obtain ⟨r, hr⟩ := viewFields_isSome xs gfs fs hc.2 hwt.2
+        have hcF := hc.1.2
+        have hwF := hwt.1
+        unfold compatField at hcF
+        unfold wtField at hwF
+        suffices hfield : ∃ a, viewField g f x = some a by
+          obtain ⟨a, ha⟩ := hfield
+          simp [ha, hr]
+        unfold viewField
+        cases hs : fslot g f.opt f.nullable with
+        | value =>
+          simp only [hs] at hcF hwF ⊢
+          exact view_isSome x g f.ty f.nullable hcF hwF
+        | optPtr g1 =>
+          simp only [hs] at hcF hwF ⊢
           cases x with
-          | nilPtr =>
-            cases g <;> simp at hc
-            rw [wtFields_opt_nil _ _ _ _ _ _ ho] at hwt
-            obtain ⟨r, hr⟩ := viewFields_isSome xs gfs fs hc.2 hwt
-            rw [viewFields_opt_nil _ _ _ _ _ _ ho]; simp [hr]
-          | ptr v =>
-            cases g <;> simp at hc
-            rename_i g1
-            rw [wtFields_opt_ptr _ _ _ _ _ _ _ ho] at hwt
-            simp only [Bool.and_eq_true] at hwt
-            obtain ⟨a, ha⟩ := view_isSome v g1 f.ty f.nullable hc.1.2 hwt.1
-            obtain ⟨r, hr⟩ := viewFields_isSome xs gfs fs hc.2 hwt.2
-            rw [viewFields_opt_ptr _ _ _ _ _ _ _ ho]; simp [ha, hr]
-          | _ => simp [wtFields, ho] at hwt
+          | nilPtr => exact ⟨_, rfl⟩
+          | ptr v => exact view_isSome v g1 f.ty f.nullable hcF hwF
+          | _ => simp at hwF
+        | optBare =>
+          simp only [hs] at hcF hwF ⊢
+          by_cases hx : bareNil g = some x
+          · simp [hx]
+          · simp only [hx, if_false, decide_false, Bool.false_or] at hwF ⊢
+            exact view_isSome x g f.ty false hcF hwF
+        | nulBare =>
+          simp only [hs] at hcF hwF ⊢
+          by_cases hx : bareNil g = some x
+          · simp [hx]
+          · simp only [hx, if_false, decide_false, Bool.false_or] at hwF ⊢
+            exact view_isSome x g f.ty false hcF hwF
+        | bad => simp [hs] at hcF
 theorem viewUnion_isSome : (vs : GoVals) → (gfs : GoFields) → (ms : List Member) →
     compatMembers gfs ms = true → wtUnion gfs ms vs = true → ∃ v, viewUnion gfs ms vs = some v
   | .nil, gfs, ms, _, hwt => by
